@@ -10,7 +10,7 @@ import (
 
 func main() {
 	vlib.Main("C04", "model_checking", func(c *vlib.Ctx) {
-		c.Rule("engine S part: one setter thread (two consecutive operations: SetConfigOption / SetDefaultConfigOption / unset / ReplaceConfig of two options / release level change) against 1-2 goroutines sharing one Concurrent getter closure and one goroutine with a plain getter, two calls each, getter closures created before or between the sets; source-instrumented config package (modules and log sealed); all interleavings within the deviation bound, both default schedulers")
+		c.Rule("engine S part: one setter thread (two consecutive operations: SetConfigOption / SetDefaultConfigOption / unset / ReplaceConfig of two options / release level change) against 1-2 goroutines sharing one Concurrent getter closure and one goroutine with a plain getter, two calls each, getter closures created before or between the sets; plus two concurrent setters of one option with persistence configured (file content equals memory afterwards); source-instrumented config package (modules and log sealed); all interleavings within the deviation bound, both default schedulers")
 		var scns []*slib.Scn
 		b := vlib.Pick(c, 2, 3)
 		for _, setter := range []string{"set2", "setdefault", "unset", "replace", "release"} {
@@ -33,6 +33,16 @@ func main() {
 				}
 			}
 		}
+		// two setters on one option with persistence configured: the file written last holds the value that is in memory
+		for _, hf := range []bool{false, true} {
+			sc := config.VerifC04S(config.C04SParams{Setter: "two-setters"})
+			sc.HighFirst = hf
+			if hf {
+				sc.Name += "/sched=high"
+			}
+			scns = append(scns, &slib.Scn{Scenario: sc, Family: "c04s/two-setters", Bound: b + 1})
+		}
+		defer config.VerifC04SCleanup()
 		slib.Run(c, scns, slib.Opts{})
 	})
 }
